@@ -413,8 +413,12 @@ func (s *inst) key() string {
 	fmt.Fprintf(&b, "%s/%d|%d,%d,%d,%d|%s|%s|", s.cfg, s.chunks, v.countTx, v.numBytes, v.countSenders, v.pending,
 		strings.Join(v.index, ","), strings.Join(v.scoreIdx, ","))
 	for _, x := range v.senders {
-		fmt.Fprintf(&b, "%s[%d,%v,%d,%v,%d,%v,%d,%v,%d]%s;", x.name, x.score, x.inScore, x.acctNonce, x.known, x.failed, x.sweepable,
-			x.internalB, x.refKnown, x.refNonce, strings.Join(x.hashes, ","))
+		fmt.Fprintf(&b, "%s[%d,%v,%d,%v,%d,%v,%d]%s;", x.name, x.score, x.inScore, x.acctNonce, x.known, x.failed, x.sweepable,
+			x.internalB, strings.Join(x.hashes, ","))
+		if s.w.prop == "C26" {
+			// the reference account nonce decides future C26 verdicts, so it is part of the state
+			fmt.Fprintf(&b, "ref[%v,%d];", x.refKnown, x.refNonce)
+		}
 	}
 	return b.String()
 }
@@ -662,12 +666,13 @@ func (s *inst) do(o opDesc) (sig, detail string) {
 // the harness itself issued (never from the implementation): NotifyAccountNonce(s, n) on a
 // sender holding >= 1 pooled tx sets it to n (the LAST notification wins, also a lower one:
 // account nonces go back on reverts); a notification for a sender without pooled txs is not
-// retained, and the record is dropped when none of the sender's pooled txs survives an
-// operation (removal of its last tx, eviction, sweep, Clear), because the cache documents the
-// account nonce as per-sender pool state. Corner: an AddTx that starts over a global threshold
-// (eviction runs first) and offers a hash the sender already pools - the survival of the
-// sender cannot be told from the contents, so that hash does not count as a survivor
-// (record dropped, oracle silent for that sender until the next notification).
+// retained, and the record is dropped when the sender holds no pooled tx after an operation
+// (removal of its last tx, eviction, sweep, Clear), because the cache keeps the account nonce
+// as per-sender pool state. Corner: an AddTx that starts over a global threshold (eviction runs
+// first) may evict and re-create the sender of the offered tx within the one call; there the
+// record is kept only if a previously pooled tx of that sender other than the offered hash is
+// still pooled afterwards (otherwise dropped: oracle silent for that sender until the next
+// notification - sound, slightly weaker).
 func (s *inst) updateRef(pre *view, o opDesc) {
 	if pre == nil || s.cache == nil {
 		return
@@ -683,18 +688,17 @@ func (s *inst) updateRef(pre *view, o opDesc) {
 	}
 	evictionRan := o.kind == kAdd && (pre.countTx > s.lim.count || pre.countSenders > s.lim.count || pre.numBytes > s.lim.bytes)
 	for name := range s.ref {
-		keep := false
 		px, qx := pre.sender(name), post.sender(name)
-		if px != nil && qx != nil {
+		keep := px != nil && qx != nil && len(qx.txs) > 0
+		if keep && evictionRan && name == o.tx.sender {
+			// the sender may have been evicted and re-created inside this AddTx
+			keep = false
 			now := map[string]bool{}
 			for _, h := range qx.hashes {
 				now[h] = true
 			}
 			for _, h := range px.hashes {
-				if evictionRan && name == o.tx.sender && h == o.tx.hash() {
-					continue
-				}
-				if now[h] {
+				if h != o.tx.hash() && now[h] {
 					keep = true
 					break
 				}
@@ -968,7 +972,7 @@ func phasesFor(c *mc.Ctx) []alphabet {
 	case c.Quick():
 		phases = []alphabet{base(6, small26...), tiny(10)}
 	default:
-		phases = []alphabet{base(9, small26...), base(6, large26...), tiny(16)}
+		phases = []alphabet{base(9, small26...), base(6, large26...), tiny(24)}
 	}
 	return phases
 }
@@ -982,6 +986,11 @@ func phasesFor(c *mc.Ctx) []alphabet {
 // before, inside and after the grace period; the third one sweeps).
 func poolPhase(c *mc.Ctx, w *world) {
 	ns := []int{1, 2, 3, 5, 10}
+	cNonces := []uint64{0, 1, 2, 3}
+	if c.Quick() {
+		ns = []int{1, 2, 3, 10}
+		cNonces = []uint64{0, 1, 3}
+	}
 	bs := []int{1, 2, 3}
 	// notification sequences of length <= 2 over {0,1,2,3} (increasing, equal and decreasing pairs)
 	notif := [][]int{{}}
@@ -994,7 +1003,7 @@ func poolPhase(c *mc.Ctx, w *world) {
 	type job struct{ am, cm, dup int }
 	var jobs []job
 	for am := 0; am < 64; am++ {
-		for cm := 0; cm < 16; cm++ {
+		for cm := 0; cm < 1<<len(cNonces); cm++ {
 			for dup := 0; dup < 2; dup++ {
 				if dup == 1 && am == 0 {
 					continue
@@ -1017,9 +1026,9 @@ func poolPhase(c *mc.Ctx, w *world) {
 				first = false
 			}
 		}
-		for n := 0; n < 4; n++ {
-			if j.cm&(1<<n) != 0 {
-				base = append(base, "add "+txDesc{"c", uint64(n), 1, 40}.hash())
+		for i, n := range cNonces {
+			if j.cm&(1<<i) != 0 {
+				base = append(base, "add "+txDesc{"c", n, 1, 40}.hash())
 			}
 		}
 		for _, nf := range notif {
@@ -1099,7 +1108,7 @@ func main() {
 		} else {
 			c.Assumptions = append(c.Assumptions,
 				"'first ones of its nonce-ordered list': order = nonce ascending, then gas price descending; txs equal in both may appear in any order",
-				"'account nonce' of a sender = the harness's own record of the LAST NotifyAccountNonce value issued while the sender held >= 1 pooled tx (a lower value replaces a higher one); never read from the implementation. Notifications for senders without pooled txs are not retained and the record is dropped when none of the sender's pooled txs survives an operation (the cache keeps account nonces as per-sender pool state); senders without a record are not constrained by the initial-gap clause; grace period = the sender's failed-selection counter (read before the call) + 1 lies in [senderGracePeriodLowerBound, senderGracePeriodUpperBound]",
+				"'account nonce' of a sender = the harness's own record of the LAST NotifyAccountNonce value issued while the sender held >= 1 pooled tx (a lower value replaces a higher one); never read from the implementation. Notifications for senders without pooled txs are not retained and the record is dropped when the sender holds no pooled tx after an operation (the cache keeps account nonces as per-sender pool state; after an AddTx that ran a global eviction the offered sender's record is kept only if one of its other pooled txs survived); senders without a record are not constrained by the initial-gap clause; grace period = the sender's failed-selection counter (read before the call) + 1 lies in [senderGracePeriodLowerBound, senderGracePeriodUpperBound]",
 				"the pool is read through the per-sender lists (C25 judges their consistency with the hash index separately)")
 		}
 
@@ -1165,10 +1174,14 @@ func main() {
 			c.Rule = rule + ". Non-trivial = a step in which a pooled (or just offered) transaction left the pool without a removal request: per-sender trim, global eviction (pool over a threshold when AddTx starts) or sweep after selection; key = kind + operation + transactions lost"
 			c.Bound = bound
 		} else {
+			poolC, poolN := "{0,1,2,3}", "{1,2,3,5,10}"
+			if c.Quick() {
+				poolC, poolN = "{0,1,3}", "{1,2,3,10}"
+			}
 			before := c.Counter("selections_checked")
 			poolPhase(c, w)
 			c.Set("pool_phase_selections", c.Counter("selections_checked")-before)
-			c.Rule = rule + "; every selection result judged against the pool before the call. || pools: sender a any subset of nonces 0..5 (optionally two prices for its lowest nonce) x sender c any subset of 0..3 x every notification sequence of length <= 2 for a over {0,1,2,3} (none, single, increasing, equal, decreasing) x n {1,2,3,5,10} x batch {1,2,3}, per-sender limit 8, the selection issued 3 times in a row. Non-trivial = selection over a pool in which some sender has a nonce gap (first pooled nonce above notified account nonce, or two consecutive pooled nonces differing by more than 1); key = pool + notifications + failed-selection counters + (n, batch)"
+			c.Rule = rule + "; every selection result judged against the pool before the call. || pools: sender a any subset of nonces 0..5 (optionally two prices for its lowest nonce) x sender c any subset of " + poolC + " x every notification sequence of length <= 2 for a over {0,1,2,3} (none, single, increasing, equal, decreasing: 21) x n " + poolN + " x batch {1,2,3}, per-sender limit 8, the selection issued 3 times in a row. Non-trivial = selection over a pool in which some sender has a nonce gap (first pooled nonce above notified account nonce, or two consecutive pooled nonces differing by more than 1); key = pool + notifications + failed-selection counters + (n, batch)"
 			c.Bound = bound + "; pools: complete"
 		}
 	})
